@@ -27,7 +27,8 @@ var c04Queries = []string{
 	"qz", "gt", "fils", "dr", "l", "comprss", "Qzx r", "srt",
 }
 
-var c04Platforms = [][]string{nil, {"linux"}, {"windows"}, {"Linux", "macos"}, {"cross-platform"}}
+// the last two are names that are only aliases / members of a family (asking for one is not asking for the family)
+var c04Platforms = [][]string{nil, {"linux"}, {"windows"}, {"Linux", "macos"}, {"cross-platform"}, {"powershell"}, {"unix"}}
 
 var c04Hosts = []string{"linux", "darwin", "windows", "freebsd"}
 
@@ -300,7 +301,7 @@ func c04Replay(c *lib.Ctx, raw json.RawMessage) []lib.Violation {
 func init() {
 	lib.Register(&lib.Check{
 		ID: "C04", Level: "model_checking",
-		Rule:      "full product of: databases = all subsets of <=2 (quick) / <=3 (thorough) of 22 platform-shaped / pipeline pool entries (an entry with a single redirect and a background & that is NOT a pipeline; none, linux, windows, macos, darwin, PowerShell, unix, bsd, cross-platform in two spellings, two-platform; on whitelisted tools, on a non-tool, on a tool behind a launcher prefix such as sudo / nohup and on a look-alike of a tool name) + the 22-entry database; 20 queries (lexical, NLP-expanded, typo-fallback with no terms and with all postings filtered); AllPlatforms x NoCrossPlatform x PipelineOnly x UseNLP x UseFuzzy x 5 requested-platform lists; 4 host OS values (vhost); entry points SearchUniversal and a chained cached wrapper (one cache per database and host, never invalidated, so answers cached under other switch settings are available to be served wrongly; ascending and, on the 22-entry database, descending order of combinations) always, cached (second call) on lexical cases and every 5th other, monitored and SearchWithPipelineOptions on lexical/no-platform cases. Oracle: every returned entry is eligible by the reference predicate, and is a pipeline command under PipelineOnly. Non-trivial = calls with a non-empty answer",
+		Rule:      "full product of: databases = all subsets of <=2 (quick) / <=3 (thorough) of 22 platform-shaped / pipeline pool entries (an entry with a single redirect and a background & that is NOT a pipeline; none, linux, windows, macos, darwin, PowerShell, unix, bsd, cross-platform in two spellings, two-platform; on whitelisted tools, on a non-tool, on a tool behind a launcher prefix such as sudo / nohup and on a look-alike of a tool name) + the 22-entry database; 20 queries (lexical, NLP-expanded, typo-fallback with no terms and with all postings filtered); AllPlatforms x NoCrossPlatform x PipelineOnly x UseNLP x UseFuzzy x 7 requested-platform lists (none, linux, windows, Linux+macos, cross-platform, and the family members powershell and unix); 4 host OS values (vhost); entry points SearchUniversal and a chained cached wrapper (one cache per database and host, never invalidated, so answers cached under other switch settings are available to be served wrongly; ascending and, on the 22-entry database, descending order of combinations) always, cached (second call) on lexical cases and every 5th other, monitored and SearchWithPipelineOptions on lexical/no-platform cases. Oracle: every returned entry is eligible by the reference predicate, and is a pipeline command under PipelineOnly. Non-trivial = calls with a non-empty answer",
 		Assume:    []string{"alias pool limited to darwin, powershell, cmd, unix, bash", "the platform filter is demanded of SearchUniversal-based entry points; of the legacy SearchWithPipelineOptions only the pipeline gate is demanded", "map order pinned"},
 		QuickSecs: 150, ThorSecs: 900,
 		Run: c04Run, Replay: c04Replay,
